@@ -59,6 +59,10 @@ class TrampolinePart:
     """Sequential differential part: generated nesting trees through the REAL trampoline_scheduler
     and through Proto/Trampoline (`ask trampoline run`); event logs must be identical."""
     name = "trampoline"
+    flags = ()
+    exe_name = "tramp"
+    libs = ["trampoline_scheduler.cpp", "inplace_stop_token.cpp"]
+    model = "trampoline"
 
     def cases(self, tier, seed):
         rng = random.Random(seed * 7919 + 13)
@@ -81,16 +85,16 @@ class TrampolinePart:
         t0 = time.time()
         try:
             exe = vlib.build_plain(vlib.os.path.join(vlib.VERIF, "harness", "seq", "tramp_c06.cpp"),
-                                   ["trampoline_scheduler.cpp", "inplace_stop_token.cpp"], sanitize="address,undefined", name="tramp")
+                                   self.libs, extra_flags=self.flags, sanitize="address,undefined", name=self.exe_name)
         except vlib.BuildError as e:
-            verdict.add("trampoline:build", "harness does not build against the current tree: " + str(e)[-1500:], dict(stream=self.name), found_input=False)
+            verdict.add(self.name + ":build", "harness does not build against the current tree: " + str(e)[-1500:], dict(stream=self.name), found_input=False)
             return
         cases = self.cases(tier, seed)
         inp = "".join(f"{md} | {t}\n" for md, t in cases)
         try:
             r = subprocess.run([exe], input=inp, capture_output=True, text=True, timeout=600)
         except subprocess.TimeoutExpired:
-            verdict.add("trampoline: harness timeout", "the real trampoline did not finish the generated cases", dict(stream=self.name), found_input=False)
+            verdict.add(self.name + ": harness timeout", "the real scheduler did not finish the generated cases", dict(stream=self.name), found_input=False)
             return
         lines = r.stdout.split("\n")
         # regroup: MONITOR lines belong to the following log line
@@ -102,7 +106,7 @@ class TrampolinePart:
                 outs.append(ln); mons.append(cur); cur = []
         if r.returncode != 0 or len(outs) < len(cases):
             k = min(len(outs), len(cases) - 1)
-            verdict.add("trampoline: harness crashed", f"rc={r.returncode} after {len(outs)} cases: {(r.stderr or '')[-600:]}",
+            verdict.add(self.name + ": harness crashed", f"rc={r.returncode} after {len(outs)} cases: {(r.stderr or '')[-600:]}",
                         dict(stream=self.name, case=f"{cases[k][0]} | {cases[k][1]}", replay_cmd=f"echo '{cases[k][0]} | {cases[k][1]}' | {exe}"))
             return
         depths = {}
@@ -110,21 +114,40 @@ class TrampolinePart:
             cov["evaluations"] += 1
             case = f"{md} | {t}"
             for m in mon:
-                kind = "item ran twice" if "ran twice" in m else "item not run exactly once when the outermost start() returned" if "outermost" in m else "nesting exceeds the maximum depth"
-                verdict.add("trampoline: monitor: " + kind, f"case {case}: {m}",
+                kind = "item ran twice" if "ran twice" in m else "item not run exactly once when the outermost start() returned" if "outermost" in m else "start() returned before its item completed" if "inline" in m else "nesting exceeds the maximum depth"
+                verdict.add(self.name + ": monitor: " + kind, f"case {case}: {m}",
                             dict(stream=self.name, case=case, real=real, replay_cmd=f"echo '{case}' | {exe}"))
-            model = driver.ask(f"ask trampoline run | {case}")
+            model = driver.ask(f"ask {self.model} run | {case}" if self.model == "trampoline" else f"ask {self.model} run | {t}")
             cov["traces_validated_against_impl"] += 1
             if model != real:
-                verdict.add("trampoline: real event log differs from Proto/Trampoline", f"case {case}: real [{real}] model [{model}]",
+                verdict.add(self.name + ": real event log differs from Proto/" + ("Trampoline" if self.model == "trampoline" else "InlineSched"), f"case {case}: real [{real}] model [{model}]",
                             dict(stream=self.name, case=case, real=real, model=model, replay_cmd=f"echo '{case}' | {exe}"))
-            elif " d" in real:
+            elif " d" in real or (self.model != "trampoline" and "d " in real + " "):
                 cov["distinct_nontrivial"] += 1
             depths[md] = depths.get(md, 0) + 1
-        cov["trampoline_cases_by_maxdepth"] = depths
+        cov[self.name + "_cases_by_maxdepth"] = depths
         if len(cov["samples"]) < 14 and cases:
             cov["samples"].append(dict(stream=self.name, case=f"{cases[-1][0]} | {cases[-1][1]}", log=outs[len(cases) - 1]))
         cov["parts_wall_s"][self.name] = round(time.time() - t0, 1)
+
+
+class InlinePart(TrampolinePart):
+    """The same generated nesting trees through the REAL inline_scheduler (tramp_c06.cpp -DUSE_INLINE) and through
+    Proto/InlineSched (`ask inlinesched run`); event logs must be identical; model-independent monitors: every item
+    ran exactly once, no start() returned before its item completed."""
+    name = "inline"
+    flags = ("-DUSE_INLINE",)
+    exe_name = "inl"
+    libs = ["inplace_stop_token.cpp"]
+    model = "inlinesched"
+
+    def cases(self, tier, seed):
+        rng = random.Random(seed * 104729 + 7)
+        out = [(0, chain(40)), (0, "(" + "()" * 20 + ")"), (0, chain(20, stop_at=7)), (0, "(" + chain(5) * 6 + ")"), (0, "((!())())")]
+        for _ in range(150 if tier == "quick" else 4000):
+            t, _ = gen_tree(rng, rng.choice([3, 6, 12, 25, 40, 60]), rng.choice([2, 4, 8, 40]), rng.choice([0.0, 0.1, 0.3]))
+            out.append((0, t))
+        return out
 
 
 def run(tier, seed, replay=None):
@@ -137,26 +160,28 @@ def run(tier, seed, replay=None):
         AtomicPart("threadpool", "scn_c06.cpp", LIBS, "threadpool", [p for p in POOL if tier != "quick" or p != "pool_2c"], **small),
         AtomicPart("newthread", "scn_c06.cpp", LIBS, "newthread", NT, **small),
         TrampolinePart(),
+        InlinePart(),
         ModelSweepPart(),
     ]
     return run_check(
         "C06", tier, seed,
         ["UnifexModel.Props.C06", "UnifexModel.Props.C06_loop", "UnifexModel.Props.C06_loop2", "UnifexModel.Props.C06_queue",
-         "UnifexModel.Props.C06_queue2", "UnifexModel.Props.C06_pool", "UnifexModel.Props.C06_loop3", "UnifexModel.Props.C06_newthread"],
+         "UnifexModel.Props.C06_queue2", "UnifexModel.Props.C06_pool", "UnifexModel.Props.C06_loop3", "UnifexModel.Props.C06_newthread", "UnifexModel.Props.C06_inline"],
         parts,
         rule="every schedule (DFS preemption-bounded + random/PCT walks) of 30 scenarios (29 in the quick tier) on the REAL manual_event_loop, single_thread_context, "
              "static_thread_pool, new_thread_context and atomic_intrusive_queue under the controlled scheduler (interposed mutex/condvar/threads); "
              "a case = one distinct observable history, non-trivial = admitted by the Lean model of the same name; plus generated nesting trees "
-             "through the real trampoline_scheduler compared event-for-event with Proto/Trampoline (non-trivial = at least one deferred item)",
+             "through the real trampoline_scheduler compared event-for-event with Proto/Trampoline (non-trivial = at least one deferred item) "
+             "and through the real inline_scheduler compared with Proto/InlineSched (non-trivial = at least one done completion after a stop request)",
         assumptions=["sequentially consistent atomics (memory orders ignored)",
                      "event loop: regions protected by mutex_ are atomic (they only touch state protected by that mutex); no spurious condition-variable wake-ups",
                      "parametric theorems: event loop (any producers/items/stoppers, all schedules), trampoline (any tree, any depth); "
                      "atomic queue / thread pool / new_thread_context: per-instance theorems (<=2 producers, <=2 items, <=2 pool threads in the kernel; larger instances only swept by the compiled driver)",
                      "enqueue racing with the stop/destructor is outside the contract: only items accepted before the stop must run",
-                     "inline_scheduler is covered by the sender calculus (C01/C05), not here"],
+                     "inline_scheduler: sequential model (Proto/InlineSched), theorems for every nesting tree (Props/C06_inline)"],
         trusted_extra=["harness/rt (cooperative scheduler, __tsan_* shim, pthread interposition)", "Core/Admit.lean trace-inclusion test",
-                       "g++ 12 -fsanitize=thread instrumentation", "harness/seq/tramp_c06.cpp + Proto/Trampoline text interface"],
-        explanation="Parametric: Props/C06 loop_* (Lemmas/EventLoop inductive invariant), trampoline_* (Lemmas/Trampoline). "
+                       "g++ 12 -fsanitize=thread instrumentation", "harness/seq/tramp_c06.cpp (+ -DUSE_INLINE) + Proto/Trampoline / Proto/InlineSched text interfaces"],
+        explanation="Parametric: Props/C06 loop_* (Lemmas/EventLoop inductive invariant), trampoline_* (Lemmas/Trampoline), inline_* (Props/C06_inline, structural induction over the nesting tree). "
                     "Instances by kernel-evaluated closure: loop_*_safe, stc2_safe, aq_*_safe, pool_1_safe, newthread_*_joins_all. "
                     "Tie: trace inclusion of real executions in the models; sequential differential for the trampoline; "
                     "model-sweep = untrusted compiled exploration of all configurations incl. those too big for the kernel "
